@@ -1684,6 +1684,39 @@ def isfinite(a):
     return math.isfinite(a)
 
 
+def isinf(a):
+    if isinstance(a, ndarray):
+        return ndarray._new([isinf(v) for v in a._flat()], a.shape, bool_)
+    if isinstance(a, SymFP):
+        import z3
+        return mk_bool(z3.fpIsInf(a.e))
+    if isinstance(a, Sym):
+        return False                  # a symbolic real / int is finite
+    return math.isinf(a)
+
+
+def isposinf(a):
+    if isinstance(a, ndarray):
+        return ndarray._new([isposinf(v) for v in a._flat()], a.shape, bool_)
+    if isinstance(a, SymFP):
+        import z3
+        return mk_bool(z3.And(z3.fpIsInf(a.e), z3.fpIsPositive(a.e)))
+    if isinstance(a, Sym):
+        return False
+    return math.isinf(a) and a > 0
+
+
+def isneginf(a):
+    if isinstance(a, ndarray):
+        return ndarray._new([isneginf(v) for v in a._flat()], a.shape, bool_)
+    if isinstance(a, SymFP):
+        import z3
+        return mk_bool(z3.And(z3.fpIsInf(a.e), z3.fpIsNegative(a.e)))
+    if isinstance(a, Sym):
+        return False
+    return math.isinf(a) and a < 0
+
+
 def isnan(a):
     if isinstance(a, ndarray):
         return ndarray._new([isnan(v) for v in a._flat()], a.shape, bool_)
